@@ -5,7 +5,10 @@ package gkvlite
 // Introspection for the verification harness in /verif.  Compiled only with the
 // "verif" build tag; nothing here changes the behaviour of the package.
 
-import "unsafe"
+import (
+	"sync"
+	"unsafe"
+)
 
 // VerifNodeInfo describes one cached node of a collection's tree.
 type VerifNodeInfo struct {
@@ -107,6 +110,7 @@ type VerifRootInfo struct {
 	RootEmpty    bool
 	Lock         uintptr   // the rootLock shared by all handles of one lineage
 	ChainMarks   []uintptr // reclaimMark sentinels of the versions this one chains to
+	Seq          uint64    // publication order of this version (0: an initial, never published root)
 }
 
 // VerifRoot returns the version information of the handle c (zero value if closed).
@@ -128,6 +132,9 @@ func VerifRoot(c *Collection) VerifRootInfo {
 	for i, n := range r.reclaimLater {
 		ri.ReclaimLater[i] = uintptr(unsafe.Pointer(n))
 	}
+	verifSeqLock.Lock()
+	ri.Seq = verifSeq[r]
+	verifSeqLock.Unlock()
 	for x := r.chainedRootNodeLoc; x != nil; x = x.chainedRootNodeLoc {
 		ri.ChainMarks = append(ri.ChainMarks, uintptr(unsafe.Pointer(&x.reclaimMark)))
 	}
@@ -159,7 +166,21 @@ const (
 // version is pinned, published or dies.
 var VerifEventFn func(kind int, version uintptr)
 
+// verifSeq numbers the versions in publication order (harness-side accounting of reference
+// counts needs to know which of two live versions is the older one).
+var (
+	verifSeqLock sync.Mutex
+	verifSeqNext uint64
+	verifSeq     = map[*rootNodeLoc]uint64{}
+)
+
 func verifEvent(kind int, r *rootNodeLoc) {
+	if kind == VerifEvPublish {
+		verifSeqLock.Lock()
+		verifSeqNext++
+		verifSeq[r] = verifSeqNext
+		verifSeqLock.Unlock()
+	}
 	if f := VerifEventFn; f != nil {
 		f(kind, uintptr(unsafe.Pointer(r)))
 	}
